@@ -21,7 +21,7 @@ ASSUMPTIONS = ["asyncio ready queue is FIFO (CPython contract); only durations, 
                "instrumentation dispatcher is a no-op stub"]
 EXPECTED_PROBES = ["overlap>=2", "queued"]
 
-CFG = {"driver": "finish", "p_retry": 40, "p_fail": 30, "fan_max": 4, "n_work": (1, 4), "n_types": (1, 4), "p_collect": 35, "p_collect_then_fail": 40, "p_wait": 12,
+CFG = {"driver": "finish", "p_retry": 40, "p_fail": 30, "fan_max": 4, "n_work": (1, 4), "n_types": (1, 4), "p_collect": 35, "p_collect_then_fail": 40, "p_collect2": 30, "p_wait": 12,
        "wait_timeouts": [None, 3, 6]}
 
 
